@@ -85,6 +85,14 @@ class SingleMarker(BaseMarker):
         raise NotImplementedError
 
 
+def _quote(value: str) -> str:
+    # PEP 508 strings have no escapes: a literal that holds a double quote
+    # can only be written in single quotes.
+    if '"' in value:
+        return f"'{value}'"
+    return f'"{value}"'
+
+
 @dataclass(unsafe_hash=True, **DATACLASS_ARGS)
 class MarkerExpression(SingleMarker):
     name: str
@@ -154,8 +162,8 @@ class MarkerExpression(SingleMarker):
 
     def __str__(self) -> str:
         if self.reversed:
-            return f'"{self.value}" {get_reflect_op(self.op)} {self.name}'
-        return f'{self.name} {self.op} "{self.value}"'
+            return f"{_quote(self.value)} {get_reflect_op(self.op)} {self.name}"
+        return f"{self.name} {self.op} {_quote(self.value)}"
 
     def __and__(self, other: t.Any) -> BaseMarker:
         from dep_logic.markers.multi import MultiMarker
@@ -227,7 +235,7 @@ class EqualityMarkerUnion(SingleMarker):
     values: OrderedSet[str]
 
     def __str__(self) -> str:
-        return " or ".join(f'{self.name} == "{value}"' for value in self.values)
+        return " or ".join(f"{self.name} == {_quote(value)}" for value in self.values)
 
     def replace(self, values: OrderedSet[str]) -> BaseMarker:
         if not values:
@@ -299,7 +307,7 @@ class InequalityMultiMarker(SingleMarker):
     values: OrderedSet[str]
 
     def __str__(self) -> str:
-        return " and ".join(f'{self.name} != "{value}"' for value in self.values)
+        return " and ".join(f"{self.name} != {_quote(value)}" for value in self.values)
 
     def replace(self, values: OrderedSet[str]) -> BaseMarker:
         if not values:
